@@ -5,5 +5,6 @@ CONSTANTS
   Tol = 10
   MaxRows = 0
   NKeys = 1
+  RankByLooks = FALSE
 
 CHECK_DEADLOCK FALSE
